@@ -1,5 +1,5 @@
 (* Executable model of bits.tx.coinbase_txin / coinbase_tx (/repo/src/bits/tx.py) AS THEY ARE NOW, with the
-   helpers they call: outpoint, txin, txout, tx (the serialiser), and the two uses of bits.script.script
+   helpers they call (outpoint, txin, txout, tx: Model/Tx.v) and the two uses of bits.script.script
    (`["OP_RETURN", <hex data>]` and `[<hex data>]` with witness=True).  Definitions only; proofs in
    Proofs/Coinbase.v and Proofs/ScriptNum.v.
 
@@ -48,8 +48,8 @@
    UINT32_MAX and WITNESS_RESERVED_VALUE are the standard's (Spec); GenProps/CoinbaseGen.v re-checks on every
    run that the code's current values are the same. *)
 From Coq Require Import ZArith List Bool.
-Require Import Bits.Lib.Result Bits.Lib.Bytes Bits.Model.CompactSize Bits.Model.Witness.
-Require Import Bits.Spec.Coinbase.
+Require Import Bits.Lib.Result Bits.Lib.Bytes Bits.Model.CompactSize Bits.Model.Witness Bits.Model.Tx.
+Require Bits.Spec.Coinbase.
 Import ListNotations.
 Import Coq.Init.Byte.
 Local Open Scope Z_scope.
@@ -62,37 +62,7 @@ Definition bit_length (n : Z) : Z := if n =? 0 then 0 else Z.log2 (Z.abs n) + 1.
 
 Definition UINT32_MAX : Z := 4294967295.
 
-(* outpoint(txid_, index) = txid_ + index.to_bytes(4, "little") *)
-Definition outpoint (txid_ : bytes) (index : Z) : result bytes :=
-  i <- to_le_chk 4 index ;; Ok (txid_ ++ i).
-
-(* txin(prev_outpoint, script_sig, sequence) *)
-Definition txin (prev_outpoint script_sig sequence : bytes) : result bytes :=
-  c <- compact_size_uint (zlen script_sig) ;; Ok (prev_outpoint ++ c ++ script_sig ++ sequence).
-
-(* txout(value, script_pubkey) *)
-Definition txout (value : Z) (script_pubkey : bytes) : result bytes :=
-  v <- to_le_chk 8 value ;;
-  c <- compact_size_uint (zlen script_pubkey) ;;
-  Ok (v ++ c ++ script_pubkey).
-
-(* tx(txins, txouts, version, locktime, script_witnesses) *)
-Definition tx_build (txins txouts : list bytes) (version locktime : Z) (script_witnesses : list bytes)
-  : result bytes :=
-  match script_witnesses with
-  | _ :: _ =>
-    v <- to_le_chk 4 version ;;
-    ni <- compact_size_uint (zlen txins) ;;
-    no <- compact_size_uint (zlen txouts) ;;
-    lt <- to_le_chk 4 locktime ;;
-    Ok (v ++ [x00] ++ [x01] ++ ni ++ concat txins ++ no ++ concat txouts ++ concat script_witnesses ++ lt)
-  | [] =>
-    v <- to_le_chk 4 version ;;
-    ni <- compact_size_uint (zlen txins) ;;
-    no <- compact_size_uint (zlen txouts) ;;
-    lt <- to_le_chk 4 locktime ;;
-    Ok (v ++ ni ++ concat txins ++ no ++ concat txouts ++ lt)
-  end.
+(* outpoint, txin, txout and tx (= [tx_raw]) are the models of Model/Tx.v *)
 
 (* getattr(bits.script.constants, f"OP_{h}").to_bytes(1, "big")   for h <= 16 *)
 Definition op_n_byte (h : Z) : result byte :=
@@ -108,11 +78,15 @@ Definition height_push (h : Z) : result bytes :=
     l <- to_le_chk 1 number_of_bytes ;;
     Ok (l ++ to_le (Z.to_nat number_of_bytes) h).
 
+(* the `if block_height is not None:` block of coinbase_txin *)
+Definition prepend_height (coinbase_script : bytes) (block_height : option Z) : result bytes :=
+  match block_height with
+  | None => Ok coinbase_script
+  | Some h => p <- height_push h ;; Ok (p ++ coinbase_script)
+  end.
+
 Definition coinbase_txin (coinbase_script sequence : bytes) (block_height : option Z) : result bytes :=
-  script <- match block_height with
-            | None => Ok coinbase_script
-            | Some h => p <- height_push h ;; Ok (p ++ coinbase_script)
-            end ;;
+  script <- prepend_height coinbase_script block_height ;;
   if 100 <? zlen script then Err ValueE
   else
     o <- outpoint (repeat x00 32) UINT32_MAX ;;
@@ -157,16 +131,16 @@ Definition coinbase_tx (coinbase_script script_pubkey : bytes) (block_reward blo
     let root := match witness_merkle_root_hash with Some r => r | None => [] end in
     push <- script_push ([xaa; x21; xa9; xed] ++ root) ;;
     commit_out <- txout 0 ([x6a] ++ push) ;;
-    wit <- witness_ser [witness_reserved_value] ;;
-    tx_build [txin_] [txout_; commit_out] 1 0 [wit]
+    wit <- witness_ser [Bits.Spec.Coinbase.witness_reserved_value] ;;
+    tx_raw [txin_] [txout_; commit_out] 1 0 [wit]
   else
-    tx_build [txin_] [txout_] 1 0 [].
+    tx_raw [txin_] [txout_] 1 0 [].
 
 (* The lines of bits.integrations.mine_block that compute the argument passed as witness_merkle_root_hash:
        wtxids = [b"\x00" * 32] + [wtxid of every mempool tx]
        witness_merkle_root_hash = bits.blockchain.merkle_root(wtxids)
        witness_merkle_root_hash = bits.crypto.hash256(witness_merkle_root_hash + WITNESS_RESERVED_VALUE)   *)
-Require Import Bits.Model.Merkle.
+Require Bits.Model.Merkle.
 Definition mine_block_commitment (sha256 : bytes -> bytes) (wtxids_without_coinbase : list bytes) : result bytes :=
-  root <- merkle_root sha256 (repeat x00 32 :: wtxids_without_coinbase) ;;
-  Ok (hash256 sha256 (root ++ witness_reserved_value)).
+  root <- Bits.Model.Merkle.merkle_root sha256 (repeat x00 32 :: wtxids_without_coinbase) ;;
+  Ok (Bits.Model.Merkle.hash256 sha256 (root ++ Bits.Spec.Coinbase.witness_reserved_value)).
